@@ -138,6 +138,11 @@ def main(argv=None) -> int:
                     again = mod.replay(json.loads(json.dumps(_jsonable(v))))
                 except Exception:
                     again = "error:" + traceback.format_exc()
+                if again is None and any(w in key for w in ("nonterm", "hang", "timeout")):
+                    # a step that exceeded its time budget once but terminates when run again: machine load, not a verdict
+                    print(f"note: discarded a non-reproducible time-out report: {key[:200]}")
+                    n_new -= 1
+                    continue
                 if again is None:
                     # not reproducible in isolation: either harness nondeterminism, or the failure depends on what the
                     # process did before (state leaking between cases).  Decide by running the whole check once more.
